@@ -46,6 +46,20 @@ ITER_BUILTINS = {"len", "iter", "list", "tuple", "set", "frozenset", "sorted", "
 CONTAINER_METHODS = {"keys", "values", "items", "__iter__", "__len__", "copy", "get"}
 
 
+def _canon_locals(fi: FunctionInfo, x: ast.AST) -> str:
+    """the construct with the function's own local names blanked (a finding is the operation, whatever the variable is called)"""
+    import copy
+    loc = set(fi.params)
+    for y in ast.walk(fi.node):
+        if isinstance(y, ast.Name) and isinstance(y.ctx, (ast.Store, ast.Del)):
+            loc.add(y.id)
+    t = copy.deepcopy(x)
+    for y in ast.walk(t):
+        if isinstance(y, ast.Name) and y.id in loc:
+            y.id = "_"
+    return norm(t)
+
+
 class Classifier:
     def __init__(self, ctx: Ctx, repo: Repo, ta: T.Taint) -> None:
         self.ctx = ctx
@@ -134,7 +148,7 @@ class Classifier:
 
         def hook(x: ast.AST, what: str) -> None:
             self.ops += 1
-            ctx.violate("R-C03.1", w, norm(x), f"{what} on a value of the traced program can run user-defined code", node=x)
+            ctx.violate("R-C03.1", w, _canon_locals(fi, x), f"{what} on a value of the traced program can run user-defined code", node=x)
 
         def safe(x: ast.AST, what: str) -> None:
             self.ops += 1
